@@ -789,7 +789,7 @@ fn suffix_events(tk: &str, t: NaiveDate) -> Vec<Transaction> {
     v
 }
 
-fn oracle_c12(env: &Env, prefix: &[Transaction], acc: &mut Acc, max_suffix: usize) -> Vec<Obs> {
+fn oracle_c12(env: &Env, prefix: &[Transaction], acc: &mut Acc, max_suffix: usize, trades_only: bool) -> Vec<Obs> {
     let mut res = vec![];
     if prefix.is_empty() {
         return res;
@@ -804,6 +804,13 @@ fn oracle_c12(env: &Env, prefix: &[Transaction], acc: &mut Acc, max_suffix: usiz
     let mut sev = vec![];
     for tk in tickers_of(prefix) {
         sev.extend(suffix_events(&tk, t_last));
+    }
+    if trades_only {
+        sev.retain(|t| match &t.operation {
+            Operation::Buy { .. } => true,
+            Operation::Sell { amount, .. } => *amount < Decimal::from(50),
+            _ => false,
+        });
     }
     let sa = Alphabet::new("suffix", sev, alpha::Rules::STRICT);
     let mut seqs: Vec<Vec<usize>> = vec![];
@@ -965,7 +972,9 @@ pub fn oracle(prop: &str, env: &Env, txs: &[Transaction], acc: &mut Acc, tier: T
         "C09" => oracle_c09(env, txs, acc),
         "C10" => oracle_c10(env, txs, acc),
         "C11" => oracle_c11(env, txs, acc),
-        "C12" => oracle_c12(env, txs, acc, if tier == Tier::Quick { 1 } else { 2 }),
+        "C12" => oracle_c12(env, txs, acc, if tier == Tier::Quick { 1 } else { 2 }, false),
+        // two-line continuations (purchases and sales only) of prefixes that are also run in their other line orders
+        "C12deep" => oracle_c12(env, txs, acc, 2, true),
         other => machinery_failure(&format!("ledger::oracle has no clause set for {other}")),
     }
 }
@@ -973,7 +982,7 @@ pub fn oracle(prop: &str, env: &Env, txs: &[Transaction], acc: &mut Acc, tier: T
 fn visit(prop: &str, ctx: &Ctx, env: &Env, acc: &mut Acc, txs: &[Transaction], profile: &str) {
     // conservation / arithmetic laws hold in every line order: also run an order in which rows of one
     // (date, security, kind) are not adjacent (the canonical order keeps them adjacent, where the tool merges them)
-    if matches!(prop, "C01" | "C02" | "C03" | "C09" | "C11") {
+    if matches!(prop, "C01" | "C02" | "C03" | "C09" | "C11" | "C12deep") {
         for il in profiles::other_orders(txs) {
             acc.bump("interleaved-line-order-also-run");
             visit_one(prop, ctx, env, acc, &il, profile);
@@ -995,7 +1004,7 @@ fn visit_one(prop: &str, ctx: &Ctx, env: &Env, acc: &mut Acc, txs: &[Transaction
             c["explored_state"] = json!(dsl_text(txs));
         }
         let input = Input::Ledger(o.input.unwrap_or_else(|| txs.to_vec()));
-        acc.violation(&ctx.findings, prop, Violation { clause: o.clause, input, detail: o.detail, context: c });
+        acc.violation(&ctx.findings, if prop == "C12deep" { "C12" } else { prop }, Violation { clause: o.clause, input, detail: o.detail, context: c });
     }
 }
 
@@ -1221,6 +1230,9 @@ pub fn c12(tier: Tier) -> i32 {
     explore_alpha("C12", &mut ctx, &env, &profiles::two_sec(), n_two, &mut acc);
     explore_alpha("C12", &mut ctx, &env, &profiles::events(&["2"]), n_m, &mut acc);
     explore_alpha("C12", &mut ctx, &env, &profiles::match1_same_day(&["2"]), n_m + 1, &mut acc);
+    // prefixes in their other line orders (a SELL line written before the same day's BUY line) with every continuation
+    // of up to two purchases/sales
+    explore_alpha("C12deep", &mut ctx, &env, &profiles::match1(&["2"], true), n_m + 1, &mut acc);
     // calendar positions: the prefix BUY(D-100), SELL(D) for every day D of 2015-2026; its extensions are dated D+31,
     // D+32, D+45 and on both sides of the next 5/6 April
     {
